@@ -30,6 +30,10 @@ type Case struct {
 	Ammo         int     `json:"ammo"`
 	FactoryErrAt int     `json:"factory_err_at"` // -1 none
 	ShotUs       int     `json:"shot_us"`
+	// Buffered (modes long and per_instance): the ammo set is finite, fits into the provider's queue as a whole and
+	// the provider's Run returns as soon as it has queued it - long before the startup profile has released its
+	// tokens and with (far) more ammo queued than the run can shoot. Provider.Run returning is not "ammo ran out".
+	Buffered bool `json:"buffered_ammo,omitempty"`
 }
 
 var suOpts = sg.Opts{MaxDepth: 2, MaxChildren: 3, MaxLeafTok: 4, MinDur: time.Millisecond, MaxDur: 40 * time.Millisecond}
@@ -54,6 +58,16 @@ func genCase(t *rapid.T) Case {
 	if c.Mode == "ammo_short" {
 		c.Ammo = rapid.IntRange(0, 30).Draw(t, "ammo")
 	}
+	if (c.Mode == "long" || c.Mode == "per_instance") && rapid.IntRange(0, 2).Draw(t, "buffered") == 0 {
+		c.Buffered = true
+		if c.Mode == "long" {
+			// shared 100/s profile, cancelled at most ~15.5 s after the start: never more than ~1600 shots
+			c.Ammo = rapid.IntRange(3000, 4000).Draw(t, "bufferedAmmo")
+		} else {
+			// every instance shoots at most RPSTokens times
+			c.Ammo = startupTokens(c.Startup)*c.RPSTokens + rapid.IntRange(1, 40).Draw(t, "spareAmmo")
+		}
+	}
 	if rapid.IntRange(0, 7).Draw(t, "factoryFail") == 0 {
 		c.FactoryErrAt = rapid.IntRange(1, startupTokens(c.Startup)).Draw(t, "factoryErrAt")
 	}
@@ -67,7 +81,14 @@ func check(c Case, o *vf.Obs) error {
 		return err
 	}
 	su := sg.Build(c.Startup)
-	prov := fake.NewProvider(fake.ProviderPlan{Total: c.Ammo, Queue: 0, AfterLast: "wait_ctx"})
+	plan := fake.ProviderPlan{Total: c.Ammo, Queue: 0, AfterLast: "wait_ctx"}
+	if c.Buffered {
+		if c.Ammo < 1 || (c.Mode != "long" && c.Mode != "per_instance") {
+			return fmt.Errorf("bad case: buffered_ammo needs a finite ammo count and mode long or per_instance")
+		}
+		plan = fake.ProviderPlan{Total: c.Ammo, Queue: c.Ammo, AfterLast: "return"}
+	}
+	prov := fake.NewProvider(plan)
 	guns := fake.NewGunWorld(fake.GunPlan{ShotUs: []int{c.ShotUs}, PanicAtShot: -1, FactoryErrAt: c.FactoryErrAt, BindErrAt: -1, Closer: true})
 	aggr := fake.NewAggregator(fake.AggPlan{})
 	m := pand.Metrics()
@@ -81,6 +102,9 @@ func check(c Case, o *vf.Obs) error {
 	newSched := func() (core.Schedule, error) {
 		switch c.Mode {
 		case "long", "ammo_short":
+			if c.Buffered {
+				return schedule.NewConst(100, 120*time.Second), nil
+			}
 			return schedule.NewConst(3000, 120*time.Second), nil
 		case "shared_outlasts":
 			d := startupSpan + 60*time.Millisecond
@@ -102,6 +126,21 @@ func check(c Case, o *vf.Obs) error {
 	eng := engine.New(pand.NopLog(), m, conf)
 	ctx, cancel := context.WithCancel(context.Background())
 	defer cancel()
+	// shared_outlasts compares two instants that are 60 ms apart by construction: believed only on a machine that did
+	// not wake this process's sleepers more than 25 ms late meanwhile (vf.LoadProbe)
+	var probe *vf.LoadProbe
+	if c.Mode == "shared_outlasts" {
+		probe = vf.StartLoadProbe()
+	}
+	stopProbe := func() time.Duration {
+		if probe == nil {
+			return 0
+		}
+		p := probe
+		probe = nil
+		return p.Stop()
+	}
+	defer stopProbe()
 	t0 := time.Now()
 	su.Start(t0)
 	parts, _, _, _ := sg.Chain(leaves, t0)
@@ -138,6 +177,16 @@ func check(c Case, o *vf.Obs) error {
 	eng.Wait()
 	started := int(m.InstanceStart.Get())
 	factoryFailed := guns.Reached("factory")
+	if c.Buffered {
+		if !prov.RunReturned.Load() {
+			return fmt.Errorf("harness: the buffered provider's Run did not return")
+		}
+		if len(prov.Delivered()) >= c.Ammo {
+			// cannot happen by the sizes chosen in genCase; if it does, ammo did run out and nothing below applies
+			o.Class("buffered_ammo_ran_out_not_judged")
+			return nil
+		}
+	}
 	// --- ids ---
 	var ids []int
 	var created []time.Time
@@ -183,6 +232,10 @@ func check(c Case, o *vf.Obs) error {
 	switch c.Mode {
 	case "long":
 		if !factoryFailed && started != total {
+			if c.Buffered {
+				return fmt.Errorf("%d instances started, the startup profile has %d tokens (last one at t0+%v) and nothing cut the start short: the provider's Run returned at t0+%v after queueing all %d ammo, of which only %d were taken (ammo did not run out), 120s shared profile, cancel only after waiting 15s",
+					started, total, tokenTimes[len(tokenTimes)-1].Sub(t0), time.Unix(0, prov.RunReturnAt.Load()).Sub(t0), c.Ammo, len(prov.Delivered()))
+			}
 			return fmt.Errorf("%d instances started, the startup profile has %d tokens and nothing cut the start short (unbounded ammo, 120s profile, cancel only after waiting 15s)", started, total)
 		}
 		if !factoryFailed && finishedBeforeCancel != 0 {
@@ -193,6 +246,10 @@ func check(c Case, o *vf.Obs) error {
 		}
 	case "per_instance":
 		// every instance has its own finite profile: one of them finishing is no reason to stop starting the others
+		if !factoryFailed && started != total && c.Buffered {
+			return fmt.Errorf("%d instances started, the startup profile has %d tokens (last one at t0+%v); profiles are per instance (%d tokens over 10ms each), the provider's Run returned at t0+%v after queueing all %d ammo, of which only %d were taken (ammo did not run out), nothing failed, nobody cancelled",
+				started, total, tokenTimes[len(tokenTimes)-1].Sub(t0), c.RPSTokens, time.Unix(0, prov.RunReturnAt.Load()).Sub(t0), c.Ammo, len(prov.Delivered()))
+		}
 		if !factoryFailed && started != total {
 			return fmt.Errorf("%d instances started, the startup profile has %d tokens; profiles are per instance (%d tokens over 10ms each), ammo is unlimited, nothing failed, nobody cancelled: an instance finishing its own profile must not cut the start short (startup lasts %v)",
 				started, total, c.RPSTokens, startupSpan)
@@ -203,6 +260,12 @@ func check(c Case, o *vf.Obs) error {
 			lastTok := tokenTimes[len(tokenTimes)-1]
 			exh := rpsExhaustedAt(shared)
 			if exh.IsZero() || exh.After(lastTok.Add(20*time.Millisecond)) {
+				if late := stopProbe(); late > 25*time.Millisecond {
+					// the start loop may have been woken for its next token only after the profile had ended
+					o.Class("inconclusive_machine_load")
+					o.Note("inconclusive", fmt.Sprintf("%d of %d instances, profile exhausted at t0+%v, sleepers woken up to %v late", started, total, exh.Sub(t0), late))
+					return nil
+				}
 				return fmt.Errorf("%d instances started of %d startup tokens although the shared profile was exhausted only at t0+%v, after the last startup token (t0+%v)",
 					started, total, exh.Sub(t0), lastTok.Sub(t0))
 			}
@@ -262,6 +325,10 @@ func check(c Case, o *vf.Obs) error {
 	o.ClassIf(started == total, "all_tokens_started")
 	o.ClassIf(c.Mode == "per_instance" && startupSpan > 12*time.Millisecond && total >= 2, "per_instance_profile_shorter_than_startup")
 	o.ClassIf(c.Startup.Kind == "composite", "composite_startup")
+	o.ClassIf(c.Buffered, "provider_run_returned_early_ammo_left")
+	o.ClassIf(c.Buffered, "provider_run_returned_early_ammo_left/"+c.Mode)
+	o.ClassIf(c.Buffered && !factoryFailed && total >= 2 && time.Unix(0, prov.RunReturnAt.Load()).Before(tokenTimes[len(tokenTimes)-1]),
+		"provider_run_returned_before_last_startup_token")
 	if total >= 2 && len(distinctInstants) >= 2 {
 		o.NonTrivial()
 	}
